@@ -485,13 +485,13 @@ func c02Echo(c *Ctx) {
 	}
 	for _, sd := range callsIn(sf, idIs(tT+"sendData")) {
 		sdI := sd.(ssa.Instruction)
-		hit, path := reachAvoid(sdI, func(in ssa.Instruction) bool { return in == sdI || isNilErrReturn(in) }, isChk)
+		hit, path := reachAvoid(sdI, func(in ssa.Instruction) bool { return in == sdI || isNilErrReturn(in) }, c.orWrapper("checkInteger", isChk))
 		c.check(hit == nil, "sendFileData/every-chunk-echo-checked", c.ipos(sdI), "each chunk sent is echo-checked before the next one or success", "a chunk can be sent without its echo being checked (a lost or altered chunk goes unnoticed until the digest, or not at all)", c.pathStr(path)...)
 	}
 	for _, nm := range []struct{ fn, typ string }{{"trzszTransfer.sendFileNum", "NUM"}, {"trzszTransfer.sendFileSize", "SIZE"}} {
 		f := c.fn(nm.fn)
 		for _, snd := range callsWithConstArg(f, tT+"sendInteger", 1, nm.typ) {
-			hit, path := reachAvoid(snd, c.maySucceed, isChk)
+			hit, path := reachAvoid(snd, c.maySucceed, c.orWrapper("checkInteger", isChk))
 			c.check(hit == nil, nm.fn+"/always-echo-checked", c.ipos(snd), "after sending "+nm.typ+" the step succeeds only after the echo check", nm.typ+" can be sent and the step succeed without the echo check", c.pathStr(path)...)
 		}
 	}
